@@ -139,6 +139,13 @@ pub fn site(rng: &mut Rng, is_span: Option<bool>, max_fields: usize) -> Site {
             if n > 0 && rng.chance(1, 8) {
                 f[0] = "message".into();
             }
+            // `span!("s", a = 1, b = 2, a = 3)` declares a name twice
+            if n > 1 && rng.chance(1, 8) {
+                let (i, j) = (rng.below(n), rng.below(n));
+                if i != j {
+                    f[j] = f[i].clone();
+                }
+            }
             f
         },
     }
